@@ -135,7 +135,45 @@ TEXT = Stage(
     nontrivial=lambda e: e.get("ev") not in ("SweepStart", "SweepEnd"),
 )
 
+BATCH = Stage(
+    family="batch",
+    mc={"quick": [("MC_Batch.tla", "MC_Batch_cmpp.cfg", "pass"), ("MC_Batch.tla", "MC_Batch_smpp.cfg", "pass"),
+                  ("MC_Batch.tla", "MC_Batch_neg.cfg", "fail")],
+        "thorough": [("MC_Batch.tla", "MC_Batch_cmpp_t.cfg", "pass"), ("MC_Batch.tla", "MC_Batch_smpp.cfg", "pass"),
+                     ("MC_Batch.tla", "MC_Batch_neg.cfg", "fail")]},
+    parts={"quick": [("", 4)], "thorough": [("", 8)]},
+    trace=("Trace_Batch.tla", "Trace_Batch.cfg"),
+    nontrivial=lambda e: True,
+)
+SPLIT_BATCH = Stage(
+    family="split",
+    mc={"quick": [], "thorough": []},
+    parts={"quick": [("batch", 2)], "thorough": [("batch", 4)]},
+    trace=("Trace_Split.tla", "Trace_Split.cfg"),
+    nontrivial=lambda e: True,
+)
+
 CHECKS = {
+    "C09": dict(
+        stages=[BATCH, SPLIT_BATCH],
+        technique="TLA+ state machine of Build (candidate set, per-candidate goroutines, filter, UCS-2 fallback, unstable sort as "
+                  "'any minimal element first') (Batch.tla): TLC exhaustive + TLC validation of the real sorter on every "
+                  "permutation and of repeated real Build calls",
+        level_text="TLC explores every candidate list of <=2 (thorough CMPP 3) entries over the valid codings and an invalid "
+                   "number, every origin, every can/parts environment, every order of the per-candidate runs, with the sort "
+                   "modelled as what an unstable sort guarantees: result = the cheapest usable coding (hence deterministic), "
+                   "UCS-2 fallback, error only when nothing can; equal priorities are the negative configuration; the comparator "
+                   "is ASSUMEd a strict total order.  The real sorter (export shim) is driven with every permutation of every "
+                   "candidate subset and part counts 1..3; real Build calls for candidate subsets, duplicates, invalid numbers, "
+                   "origins and ~26 contents are repeated under shuffled candidate order and GOMAXPROCS 1/2/4/16, each "
+                   "result compared with Expected computed by TLC from the environment observed through the single-coding "
+                   "entry points; the returned parts are judged by Split.tla (C09.parts)",
+        level_note="Go's map iteration order and goroutine schedule inside Build are sampled by repetition, not controlled; the "
+                   "sorter is exercised exhaustively through a verif-tagged export shim; what a candidate can do is observed "
+                   "from EncodeCMPP/SMPPContentAndSplit (C05-C07 judge those)",
+        rule="one event per sorter call / Build call; distinct = distinct events",
+        assumptions=["single-coding entry points as environment", "candidates of the selected protocol only (contract)"],
+    ),
     "C05": dict(
         stages=[TEXT],
         technique="TLA+ definition of the codings as (repertoire, character -> units) (Text.tla, Gsm7.tla): TLC exhaustive on the "
